@@ -556,6 +556,8 @@ def r02_10(ctx: Ctx, rule: str = "R02.10") -> None:
 
 
 def run(ctx: Ctx) -> None:
+    from . import c16 as _c16q
+    _c16q.r16_9(ctx, rule="R02.19")  # leading './' is removed as a prefix, not as a set of characters ('.profile' keeps its dot)
     from . import c16 as _c16n
     _c16n.r16_14(ctx, rule="R02.18")  # a tree with a file whose name is nothing but a drive prefix is refused, not archived as '.'
     r02_8(ctx)
